@@ -104,6 +104,10 @@ type family struct {
 	bases   []string
 	classes []string
 	sufs    []string
+	// strict-prefix pairs: a version (extBases, or a canonical version of the genome) against the same
+	// version followed by one more tail (exts): [0…0, letter…], [0…0], [letter], [n], …
+	extBases []string
+	exts     []string
 }
 
 var bigNum = "1234567890123456789012345"
@@ -374,81 +378,101 @@ var families = []family{
 		toks:    []string{"0", "1", "2", "10", "01", "007", "1.2.3", "1.2", "1.2.3.4", "v", "-", "+", "+build.5", ".", "rc", "rc.1", "alpha", "beta", "-1", "+1", "x", bigNum, "a.b", "-rc", "--", "1.0.0-", "1.0.0-alpha.1", "1.0.0-alpha.beta", "1.0.0+meta", "é", "~", "_", "-0", "-00", "-01", "-1a", "-a1", "RC", "V"},
 		refs:    []string{"1.0.0", "1.0.0-a.1"}, grammar: gSemver,
 		triPool: cross([]string{"1.0.0", "1.0", "1", "1.0.0.0", "1.0.1", "v1.0.0", "1.00.0"}, []string{"", "-a", "-1", "-01", "-a.1", "-a.b", "-rc.1", "-rc.1.0", "+m", "-", "-A", "-1a"}), canon: canonSemver,
-		bases:   []string{"1.0.0", "1.0"},
-		classes: []string{"", "-", "-a", "-A", "-1", "-01", "-a.1", "-a.a", "-a-", "+m", "-rc", "-0", "--", "-1a", "-~", ".1"},
-		sufs:    []string{"", "1", ".1", "a"}},
+		bases:    []string{"1.0.0", "1.0"},
+		classes:  []string{"", "-", "-a", "-A", "-1", "-01", "-a.1", "-a.a", "-a-", "+m", "-rc", "-0", "--", "-1a", "-~", ".1"},
+		sufs:     []string{"", "1", ".1", "a"},
+		extBases: []string{"1.0.0", "1.0.0-rc", "1.0.0-rc.1", "1.0.0-0"},
+		exts:     []string{"-0", "-a", ".0", ".a", ".1", ".0.a", ".0.0", "+b", "-0.a", "-", "0", "a"}},
 	{name: "nuget", ecos: []string{"NuGet"},
 		alpha12: []string{"0", "1", "2", ".", "-", "+", "a", "b", "v", "A", "B", "é"},
 		toks:    []string{"0", "1", "2", "10", "01", "1.2.3.4", "1.2.3.4.5", "v", "-", "+", ".", "rc", "RC", "Rc.1", "alpha", "ALPHA", "-1", "x", bigNum, "-rc", "-RC", "É", "é", "\u0130", "i", "\u212a", "k"},
 		refs:    []string{"1.0.0.0", "1.0.0-RC"}, grammar: gSemver,
 		triPool: cross([]string{"1.0.0.0", "1.0", "1", "1.0.0.0.0", "1.0.0.1", "1.0.0.0.1"}, []string{"", "-a", "-A", "-1", "-a.1", "-A.B", "-rc.1", "-RC.1", "+m", "-b"}), canon: canonNuGet,
-		bases:   []string{"1.0.0", "1.0.0.0"},
-		classes: []string{"", "-", "-a", "-A", "-1", "-01", "-a.1", "-A.1", "-a-", "+m", "-rc", "-RC", "-0", "--", "-1a", ".1"},
-		sufs:    []string{"", "1", ".1", "a"}},
+		bases:    []string{"1.0.0", "1.0.0.0"},
+		classes:  []string{"", "-", "-a", "-A", "-1", "-01", "-a.1", "-A.1", "-a-", "+m", "-rc", "-RC", "-0", "--", "-1a", ".1"},
+		sufs:     []string{"", "1", ".1", "a"},
+		extBases: []string{"1.0.0", "1.0.0-rc", "1.0.0.0-rc.1", "1.0"},
+		exts:     []string{".0", ".a", ".1", "-a", "-0", "+b", ".0.a", ".0.0", "-A", "0", "a"}},
 	{name: "cran", ecos: []string{"CRAN"},
 		alpha12: []string{"0", "1", "2", "9", ".", "-", "+", "a", "x", "_", "\u00a0", "é"},
 		toks:    []string{"0", "1", "2", "10", "01", "007", ".", "-", "1.2", "1-2", "a", "x", "+1", "+", bigNum, "", " ", "1.2.3", "..", "--", "é"},
 		refs:    []string{"1.0", "1-0-0"}, grammar: gCran,
 		triPool: cross([]string{"1", "1.0", "1-0", "1.0.0", "1.", "1..", "01", "+1", "1.1", "0.1", ""}, []string{"", ".0", "-1", ".01", "."}), canon: canonCran,
-		bases:   []string{"1.0", "1"},
-		classes: []string{"", ".1", "-1", ".0", "-0", ".", ".10", ".01", "-", ".2"},
-		sufs:    []string{"", ".1", "-1", "0"}},
+		bases:    []string{"1.0", "1"},
+		classes:  []string{"", ".1", "-1", ".0", "-0", ".", ".10", ".01", "-", ".2"},
+		sufs:     []string{"", ".1", "-1", "0"},
+		extBases: []string{"1.0", "1", "1-0", "1.0.1"},
+		exts:     []string{".0", "-0", ".0.0", ".1", ".0.1", "-0-1", "0", ".00", ".0-0.0"}},
 	{name: "debian", ecos: []string{"Debian", "Ubuntu"},
 		alpha12: []string{"0", "1", "9", ".", "-", ":", "~", "+", "a", "Z", "\u00a0", "é"},
 		toks:    []string{"0", "1", "2", "10", "01", "007", "1.2.3", "a", "b", "rc", "~", "~~", "+", "-", "--", ":", "1:", "0:", "x:", "-1:", ".", "..", "_", "^", "A", "Z", "z", "deb12u4", "ubuntu1", "dfsg", "+b1", bigNum, " ", "\t", "1a", "a1", "é", "\u00a0", "€"},
 		refs:    []string{"1.0-1", "1:1.0~rc1-1"}, grammar: gDebian,
 		triPool: cross([]string{"1.0", "1", "0:1.0", "1:1", "1.0~", "1.0~~", "1.0a", "1.0+", "1.0é", "1.00", "1.0.", "1.0-0", "1.0-"}, []string{"", "-1", "-1~", "~rc1", "+b1", "-01"}), canon: canonDebian,
-		bases:   []string{"1.0", "1:1.0", "1.0-1"},
-		classes: []string{"", "~", "+", ".", "-", "a", "z", "A", "1", "~~", ".a", "+b", "_", "~a", "a~", "0"},
-		sufs:    []string{"", "1", "rc1", "a"}},
+		bases:    []string{"1.0", "1:1.0", "1.0-1"},
+		classes:  []string{"", "~", "+", ".", "-", "a", "z", "A", "1", "~~", ".a", "+b", "_", "~a", "a~", "0"},
+		sufs:     []string{"", "1", "rc1", "a"},
+		extBases: []string{"1.0", "1.0-1", "1:1.0~rc", "1.0a", "1.0-1~"},
+		exts:     []string{"~", "~~", ".0", "0", "a", "+", ".", "~a", "-0", "-1", ".0~", "~0", "0a", ".0.0", "~~a"}},
 	{name: "rubygems", ecos: []string{"RubyGems"},
 		alpha12: []string{"0", "1", "2", "9", ".", "-", "a", "b", "r", "c", "A", "é"},
 		toks:    []string{"0", "1", "2", "10", "01", "007", "1.2.3", ".", "..", "a", "b", "rc", "pre", "rc1", "1a", "a1", "-", "x", bigNum, ".0", "0.0", "A", "é", "+1", "-1"},
 		refs:    []string{"1.0.0", "1.0.0.rc1"}, grammar: gRuby,
 		triPool: cross([]string{"1", "1.0", "1.0.0", "1.0.1", "1.00", "01", "1.", "1..0"}, []string{"", ".a", ".rc1", "rc1", ".rc.1", ".a.0", "a", ".0.a", "-1", ".b", ".A"}), canon: canonRuby,
-		bases:   []string{"1.0", "1"},
-		classes: []string{"", ".a", ".rc", ".pre", ".1", ".0", ".a1", "a", "-1", ".A", ".b", ".z", ".00", ".a.0"},
-		sufs:    []string{"", "1", ".1", ".0"}},
+		bases:    []string{"1.0", "1"},
+		classes:  []string{"", ".a", ".rc", ".pre", ".1", ".0", ".a1", "a", "-1", ".A", ".b", ".z", ".00", ".a.0"},
+		sufs:     []string{"", "1", ".1", ".0"},
+		extBases: []string{"2.0.0.rc", "1.0.beta", "1.a", "1", "1.0", "3.2.a.1", "1.a.0.b", "1.0.0.1", "10.rc.2"},
+		exts:     []string{".0.a", ".0.0.a", ".0", ".0.0", ".a", ".1", ".10", ".0.1", ".0.a.1", ".a.0", ".a.0.b", "0a", "a0", ".0.0.0.z", ".0.a.0", ".00", ".0.0.1", "a", "0"}},
 	{name: "redhat", ecos: []string{"Red Hat"},
 		alpha12: []string{"0", "1", "9", ".", "-", ":", "~", "^", "a", "Z", "_", "é"},
 		toks:    []string{"0", "1", "2", "10", "01", "007", "1.2.3", "a", "b", "rc", "~", "~~", "^", "^^", "+", "-", "--", ":", "1:", "0:", "x:", ".", "..", "_", "A", "Z", "z", "el8", "fc39", bigNum, " ", "1a", "a1", "é", "€", "pkg-"},
 		refs:    []string{"1.0-1.el8", "0:1.0~rc1-1"}, grammar: gRedHat,
 		triPool: cross([]string{"1.0", "1", "0:1.0", "1:1", "1.0~", "1.0^", "1.0a", "1.0.", "1.00", "1.0~~", "1.0^1", "1.0~1", "", "~", "^", "."}, []string{"", "-1", "-1~", "-^", "a", ".a"}), canon: canonRedHat,
-		bases:   []string{"1.0", "1.0-1", "2:1.0"},
-		classes: []string{"", "~", "^", ".", "_", "+", "1", ".1", "a", ".a", "~~", "^^", "~^", "^~", ".0", "01", "A"},
-		sufs:    []string{"", "1", "rc1", "git1", "a"}},
+		bases:    []string{"1.0", "1.0-1", "2:1.0"},
+		classes:  []string{"", "~", "^", ".", "_", "+", "1", ".1", "a", ".a", "~~", "^^", "~^", "^~", ".0", "01", "A"},
+		sufs:     []string{"", "1", "rc1", "git1", "a"},
+		extBases: []string{"1.0", "1.0-1", "2:1.0~rc", "1.0a", "1.0-1^"},
+		exts:     []string{"~", "^", "~~", "^^", ".0", "0", "a", ".", "~a", "^a", "-0", "-1", ".0~", "~0", "^0", "0a", ".0.0", "~^", "^~"}},
 	{name: "packagist", ecos: []string{"Packagist"},
 		alpha12: []string{"0", "1", "2", ".", "-", "#", "p", "a", "R", "C", "v", "é"},
 		toks:    []string{"0", "1", "2", "10", "01", "1.2.3", ".", "-", "_", "+", "v", "V", "dev", "alpha", "a", "beta", "b", "RC", "rc", "#", "p", "pl", "patch", "RC1", "p1", "beta2", "B", "Alpha", bigNum, "99999999999999999999", "x", "é", "..", "stable"},
 		refs:    []string{"1.0.0", "1.0.0-RC1"}, grammar: gPackagist,
-		triPool: cross([]string{"1", "1.0", "1.0.0", "1.5", "1.99999999999999999999", "v1", "1.1"}, []string{"", "-dev", "-a", "-alpha1", "-b2", "-RC", "-rc1", "-p", "-p1", "-pl", ".x", "x", "-stable"}),
-		bases:   []string{"1.0", "1.0.0"},
-		classes: []string{"", "-dev", "-alpha", "-a", "-beta", "-b", "-RC", "-rc", "-p", "-pl", "-patch", "-stable", ".1", ".0", "-#", "-x"},
-		sufs:    []string{"", "1", ".1", "2"}},
+		triPool:  cross([]string{"1", "1.0", "1.0.0", "1.5", "1.99999999999999999999", "v1", "1.1"}, []string{"", "-dev", "-a", "-alpha1", "-b2", "-RC", "-rc1", "-p", "-p1", "-pl", ".x", "x", "-stable"}),
+		bases:    []string{"1.0", "1.0.0"},
+		classes:  []string{"", "-dev", "-alpha", "-a", "-beta", "-b", "-RC", "-rc", "-p", "-pl", "-patch", "-stable", ".1", ".0", "-#", "-x"},
+		sufs:     []string{"", "1", ".1", "2"},
+		extBases: []string{"1.0", "1.0.0-RC", "1.0-p"},
+		exts:     []string{".0", "-dev", ".0-a", "-p", ".0.0", "1", "-0", ".x", "-stable"}},
 	{name: "pypi", ecos: []string{"PyPI"},
 		alpha12: []string{"0", "1", ".", "-", "!", "+", "a", "r", "c", "d", "v", "p"},
 		toks:    []string{"1!", "2!", ".post1", "-1", ".dev2", "dev", "post", "rev3", "r4", "c1", "rc", "preview", "pre", ".a1", "b", ".b2", "+local", "+abc.5", "+1.a", "+A_b", "1.0", "1.0.0", " ", "v", "V", ".", ".0", "final", "0", "1", "2", "10", "01", "007", "1.2.3", "a", "-", "_", "x", bigNum, "é", "\u0130", "\u212a", "~", "@", "*"},
 		refs:    []string{"1.0", "1.0.post1.dev2"}, grammar: gPyPI,
 		triPool: cross([]string{"1.0", "1", "1.0.0", "0!1", "1!0", "1.1", "x1", "1.0x"}, []string{"", "a", "a0", ".a1", "b1", "rc1", "c1", ".post1", "-1", ".dev1", ".post1.dev1", "a1.dev1", "+l", "+1", "+l.1", ".dev", "-"}), canon: canonPyPI,
-		bases:   []string{"1.0", "1!1.0", "1.0a1", "1.0.post1"},
-		classes: []string{"", ".dev", "a", "b", "rc", "c", ".post", ".rev", "-", ".alpha", ".beta", ".pre", "+l", ".1", ".0", "dev", "post", ".preview"},
-		sufs:    []string{"", "1", "2", "0"}},
+		bases:    []string{"1.0", "1!1.0", "1.0a1", "1.0.post1"},
+		classes:  []string{"", ".dev", "a", "b", "rc", "c", ".post", ".rev", "-", ".alpha", ".beta", ".pre", "+l", ".1", ".0", "dev", "post", ".preview"},
+		sufs:     []string{"", "1", "2", "0"},
+		extBases: []string{"1.0", "1.0a1", "1.0.post1", "1!1.0", "1.0.dev1", "1.0+a"},
+		exts:     []string{".0", ".0.0", ".1", "a0", ".dev0", ".post0", "+a", "+0", ".0a1", ".dev1", ".0.post1", ".0.dev0", ".0", "0", ".a"}},
 	{name: "alpine", ecos: []string{"Alpine"},
 		alpha12: []string{"0", "1", "9", ".", "_", "-", "r", "p", "a", "~", "c", "é"},
 		toks:    []string{"0", "1", "2", "10", "01", "00", "007", "1.2.3", ".", "..", "a", "b", "z", "A", "_alpha", "_beta1", "_pre", "_rc2", "_p", "_p1", "_pre1", "_git", "_hg3", "_cvs", "_svn", "_x", "-r", "-r0", "-r12", "-rx", "~abc", "~1f", "~g", "~", bigNum, "é", "!", "_"},
 		refs:    []string{"1.0", "1.0.0_rc1-r1"}, grammar: gAlpine,
-		triPool: cross([]string{"1", "1.0", "1.00", "1.1", "1.01", "1.10", "1.0.0", "2", "1.02", "9!", "10!", "9.5"}, []string{"", "a", "_alpha", "_rc1", "_p1", "_p", "-r0", "-r1"}),
-		bases:   []string{"1.0", "1.2.3"},
-		classes: []string{"", "_alpha", "_beta", "_pre", "_rc", "_cvs", "_svn", "_git", "_hg", "_p", "a", "b", ".1", ".0", "-r1", "_x", "~abc"},
-		sufs:    []string{"", "1", "2", "-r1"}},
+		triPool:  cross([]string{"1", "1.0", "1.00", "1.1", "1.01", "1.10", "1.0.0", "2", "1.02", "9!", "10!", "9.5"}, []string{"", "a", "_alpha", "_rc1", "_p1", "_p", "-r0", "-r1"}),
+		bases:    []string{"1.0", "1.2.3"},
+		classes:  []string{"", "_alpha", "_beta", "_pre", "_rc", "_cvs", "_svn", "_git", "_hg", "_p", "a", "b", ".1", ".0", "-r1", "_x", "~abc"},
+		sufs:     []string{"", "1", "2", "-r1"},
+		extBases: []string{"1.0", "1.0_rc1", "1.0a"},
+		exts:     []string{".0", "_p", "_alpha", "a", "-r0", ".0.0", "_p0", "0", ".00", "_rc"}},
 	{name: "maven", ecos: []string{"Maven"},
 		alpha12: []string{"0", "1", "2", ".", "-", "a", "r", "c", "f", "o", "s", "p"},
 		toks:    []string{"0", "1", "2", "10", "01", "007", "1.0", "1.0.0", ".", "-", "..", "--", ".0", "-0", "final", "ga", "release", "cr", "CR1", "sp", "SP2", "snapshot", "SNAPSHOT", "milestone", "m1", "m", "a1", "b2", "a", "b", "foo", "Final", "-final", "jre", "rc", "alpha", "beta", bigNum, "é", "é1", "€2", "x", "_", "+"},
 		refs:    []string{"1.0", "1.0-rc1"}, grammar: gMaven,
-		triPool: cross([]string{"1", "1.0", "1.1", "0", "1.0.1"}, []string{"", ".alpha", ".rc1", ".foo", "-foo", ".sp", "-sp", ".1", "-1", "rc", "a", ".a", "-a", "alpha", "-alpha-1", "-alpha1", "-rc", "-SNAPSHOT", "-ga", "-m1", "-xyz1"}),
-		bases:   []string{"1.0", "1"},
-		classes: []string{"", "-alpha", "-beta", "-milestone", "-rc", "-snapshot", "-sp", "-ga", "-final", "-release", "-foo", "-1", ".1", ".0", ".alpha", ".foo", "-a", "-b", "-m", "-cr"},
-		sufs:    []string{"", "1", "-1", ".1"}},
+		triPool:  cross([]string{"1", "1.0", "1.1", "0", "1.0.1"}, []string{"", ".alpha", ".rc1", ".foo", "-foo", ".sp", "-sp", ".1", "-1", "rc", "a", ".a", "-a", "alpha", "-alpha-1", "-alpha1", "-rc", "-SNAPSHOT", "-ga", "-m1", "-xyz1"}),
+		bases:    []string{"1.0", "1"},
+		classes:  []string{"", "-alpha", "-beta", "-milestone", "-rc", "-snapshot", "-sp", "-ga", "-final", "-release", "-foo", "-1", ".1", ".0", ".alpha", ".foo", "-a", "-b", "-m", "-cr"},
+		sufs:     []string{"", "1", "-1", ".1"},
+		extBases: []string{"1.0", "1", "1.0-rc", "1-foo"},
+		exts:     []string{".0", "-0", "-ga", ".final", "-a", ".0.a", ".0.0", "-0-1", ".1", "-1", "0", "a", "-", ".release.1"}},
 }
 
 func famAlphabet(f *family) []string {
@@ -540,11 +564,27 @@ func genPair(r *rand.Rand, f *family) (string, string) {
 			h := append([]int{}, g...)
 			h[r.Intn(len(h))] = r.Intn(1000)
 			return a, f.canon(h)
-		case k < 65:
+		case k < 63:
 			return a, a
+		case k < 80: // strict prefix: the same canonical version with one (or two) more tails
+			b := a + pick(r, f.exts)
+			if r.Intn(4) == 0 {
+				b += pick(r, f.exts)
+			}
+			if r.Intn(2) == 0 {
+				return b, a
+			}
+			return a, b
 		default:
 			return a, f.canon(genome(r))
 		}
+	}
+	if r.Intn(100) < 4 {
+		a := pick(r, f.extBases)
+		if r.Intn(2) == 0 {
+			return a + pick(r, f.exts), a + pick(r, f.exts)
+		}
+		return a, a + pick(r, f.exts) + opt(r, 25, pick(r, f.exts))
 	}
 	a := genString(r, f)
 	switch k := r.Intn(100); {
@@ -651,6 +691,38 @@ func main() {
 							emitTri(eco, x+t1+s1, x, x+t2+s1)
 							emitTri(eco, x+t1+s1, x+t2+s1, x+t2+s2)
 							emitTri(eco, x+t1+s1, x+t1+s2, x+t2+s1)
+						}
+					}
+				}
+			}
+		}
+	}
+	// (0b) strict-prefix pairs, in BOTH tiers: every base against base+tail (cmp: published-rule oracle), and
+	// base, base+tail1, base+tail2 as a triple; quick tier: first two bases
+	{
+		k := 0
+		for fi := range families {
+			f := &families[fi]
+			bases := f.extBases
+			if o.Tier != "thorough" && len(bases) > 2 {
+				bases = bases[:2]
+			}
+			for _, x := range bases {
+				for i, e1 := range f.exts {
+					k++
+					if k%*shards != *shard {
+						continue
+					}
+					eco := f.ecos[k%len(f.ecos)]
+					emitCmp(eco, x, x+e1)
+					emitCmp(eco, x+e1, x)
+					e2 := f.exts[(i+1)%len(f.exts)]
+					emitTri(eco, x, x+e1, x+e2)
+					if o.Tier == "thorough" {
+						for _, e3 := range f.exts[i+1:] {
+							emitCmp(eco, x+e1, x+e3)
+							emitTri(eco, x+e1, x, x+e3)
+							emitTri(eco, x+e1, x+e1+e3, x+e3)
 						}
 					}
 				}
